@@ -25,7 +25,8 @@ def renderEntry (e : Entry) : String :=
     | .set s => "t:" ++ ",".intercalate (sortBy (· < ·) (s.map hexV))
     | .hash h => "h:" ++ ",".intercalate (sortBy (· < ·) (h.map fun (f, v) => hexV f ++ "=" ++ hexV v))
     | .zset z => renderZSet z
-    | .stream s => "x:" ++ ";".intercalate (s.map fun e => s!"{e.id.ms}-{e.id.seq}=" ++ ",".intercalate (e.fields.map hexV))
+    | .stream s last => "x:" ++ ";".intercalate (s.map fun e => s!"{e.id.ms}-{e.id.seq}=" ++ ",".intercalate (e.fields.map hexV))
+        ++ s!"|last={last.ms}-{last.seq}"
   v ++ "@" ++ (match e.exp with | some d => toString d | none => "-")
 
 /-- observed dump of one key, reduced to the live view at time `t`: an entry whose deadline has passed is `~` -/
